@@ -204,12 +204,19 @@ impl AggregateExecutionEngine {
                     group_key.clone(),
                     aggregate_index,
                     || {
-                        let element_type = column_value.value_type().ok_or(ExecutionError::CannotCreateArrayOfNullType)?;
+                        // While only NULLs have arrived the element type is not known yet
+                        let element_type = column_value.value_type().unwrap_or(ValueType::String);
                         Ok(ValueType::Array(Box::new(element_type)).default_value())
                     }
                 )?;
 
-                if let Value::Array(_, array) = group_value {
+                if let Value::Array(element_type, array) = group_value {
+                    if let Some(value_type) = column_value.value_type() {
+                        if array.iter().all(|element| element.is_null()) {
+                            *element_type = value_type;
+                        }
+                    }
+
                     array.push(column_value.clone());
                 }
             }
